@@ -32,7 +32,7 @@ for pid in sorted(CHECKS.keys()):
      "quick_cmd": "checks/check.sh %s quick" % pid,
      "thorough_cmd": "checks/check.sh %s thorough" % pid,
      "evidence_file": "evidence/%s.json" % pid,
-     "replay_cmd_template": "$(sim/build.sh plain)/simfact replay {path}",
+     "replay_cmd_template": "checks/replay.sh {path}",
      "engine": "simfact",
      "level_claimed": {"category": CHECKS[pid]['level'], "text": t['level_text'], "design_ref": t['design_ref']},
      "level_note": t['level_note'],
